@@ -16,6 +16,7 @@ C16 — function items are first-class values: closures, partial application, HO
 """
 from __future__ import annotations
 
+import math
 import sys
 from decimal import Decimal
 from pathlib import Path
@@ -25,6 +26,8 @@ from harness.common import (Run, Disagreement, cli, DriverError)  # noqa: E402
 
 PROP = 'C16'
 FUEL = 400
+CI_URI = 'http://www.w3.org/2005/xpath-functions/collation/html-ascii-case-insensitive'
+CP_URI = 'http://www.w3.org/2005/xpath-functions/collation/codepoint'
 
 # ------------------------------------------------------------------------------- types
 I, B = 'I', 'B'
@@ -79,7 +82,7 @@ POLY = {'count': lambda t: F([t], I), 'reverse': lambda t: F([t], t), 'head': la
 
 # --------------------------------------------------------------------------- printers
 def is_atomic(e) -> bool:
-    return e[0] in ('lit', 'dlit', 'elit', 'var', 'dot', 'pos', 'last', 'tt', 'ff', 'emp', 'par')
+    return e[0] in ('lit', 'dlit', 'elit', 'slit', 'nan', 'inf', 'negz', 'var', 'dot', 'pos', 'last', 'tt', 'ff', 'emp', 'par')
 
 
 def xp(e) -> str:
@@ -92,6 +95,14 @@ def xp(e) -> str:
         return f'{e[1]}.0' if e[1] >= 0 else f'(-{-e[1]}.0)'
     if k == 'elit':
         return f'{e[1]}e0' if e[1] >= 0 else f'(-{-e[1]}e0)'
+    if k == 'slit':
+        return '"' + e[1] + '"'
+    if k == 'nan':
+        return "xs:double('NaN')"
+    if k == 'inf':
+        return "xs:double('INF')" if e[1] else "xs:double('-INF')"
+    if k == 'negz':
+        return '(-0e0)'
     if k == 'inst':
         return f'{wrap(e[2])} instance of xs:{e[1]}'
     if k == 'tt':
@@ -148,7 +159,10 @@ def xp(e) -> str:
     if k == 'pairs':
         return f'for-each-pair({seqarg(e[1])}, {seqarg(e[2])}, {funarg(e[3])})'
     if k == 'sortK':
-        return f'sort({seqarg(e[1])}, (), {funarg(e[2])})'
+        # e[3]: collation argument: 'default' = `()` (the parser's default collation), or an explicit URI
+        col = e[3] if len(e) > 3 else 'default'
+        carg = {'default': '()', 'codepoint': f'"{CP_URI}"', 'asciici': f'"{CI_URI}"'}[col]
+        return f'sort({seqarg(e[1])}, {carg}, {funarg(e[2])})'
     if k == 'apply':
         return f'apply({funarg(e[1])}, [' + ', '.join(wrap(m) for m in e[2]) + '])'
     raise ValueError(k)
@@ -175,7 +189,7 @@ def seqarg(e) -> str:
     repair `… iterate their sequence argument on a copy of the context`)."""
     if e[0] == 'smap' and len(e) > 3 and e[3]:
         return xp(e)
-    return xp(e) if e[0] in ('lit', 'dlit', 'elit', 'var', 'emp', 'par') else f'({xp(e)})'
+    return xp(e) if e[0] in ('lit', 'dlit', 'elit', 'slit', 'var', 'emp', 'par') else f'({xp(e)})'
 
 
 def funarg(e) -> str:
@@ -183,18 +197,30 @@ def funarg(e) -> str:
     return xp(e) if e[0] in ('fn', 'tfn', 'var', 'par') else f'({xp(e)})'
 
 
-def proto(e) -> str:
+def proto(e, dc: bool = False) -> str:
+    """driver tokens; `dc`: the parser evaluating the program has html-ascii-case-insensitive as its
+    default collation (the collation in force of every sort is resolved here)"""
     out: list[str] = []
 
     def go(e):
         k = e[0]
         if k in ('lit', 'dlit', 'elit', 'var'):
             out.extend([k, str(e[1])])
+        elif k == 'slit':
+            out.extend(['slit', str(len(e[1]))] + [str(ord(ch)) for ch in e[1]])
+        elif k in ('nan', 'negz'):
+            out.append(k)
+        elif k == 'inf':
+            out.append('inf+' if e[1] else 'inf-')
+        elif k == 'sortK':
+            col = e[3] if len(e) > 3 else 'default'
+            ci = dc if col == 'default' else (col == 'asciici')
+            out.extend(['sortK', '1' if ci else '0']); go(e[1]); go(e[2])
         elif k == 'inst':
             out.extend(['inst', e[1]]); go(e[2])
         elif k in ('tt', 'ff', 'emp', 'dot', 'pos', 'last'):
             out.append(k)
-        elif k in ('add', 'sub', 'mul', 'gt', 'eq', 'cat', 'smap', 'forEach', 'filter', 'sortK'):
+        elif k in ('add', 'sub', 'mul', 'gt', 'eq', 'cat', 'smap', 'forEach', 'filter'):
             out.append(k); go(e[1]); go(e[2])      # (a 4th element of smap is a printing hint)
         elif k in ('ite', 'foldL', 'foldR', 'pairs'):
             out.append(k); go(e[1]); go(e[2]); go(e[3])
@@ -252,7 +278,7 @@ def renumber(e):
             return ('apply', go(e[1]), [go(m) for m in e[2]])
         if k == 'spart':
             return ('spart', e[1], [None if a is None else go(a) for a in e[2]])
-        if k in ('lit', 'dlit', 'elit', 'var', 'named'):
+        if k in ('lit', 'dlit', 'elit', 'slit', 'nan', 'inf', 'negz', 'var', 'named'):
             return e
         if k == 'inst':
             return ('inst', e[1], go(e[2]))
@@ -266,7 +292,7 @@ def size(e) -> int:
     if e is None or not isinstance(e, tuple):
         return 0
     k = e[0]
-    if k in ('lit', 'dlit', 'elit', 'var', 'named'):
+    if k in ('lit', 'dlit', 'elit', 'slit', 'nan', 'inf', 'negz', 'var', 'named'):
         return 1
     if k == 'fn':
         return 1 + size(e[3])
@@ -288,7 +314,7 @@ def names(e, acc: set):
     k = e[0]
     if k == 'var':
         acc.add(e[1])
-    elif k in ('lit', 'dlit', 'elit', 'named'):
+    elif k in ('lit', 'dlit', 'elit', 'slit', 'nan', 'inf', 'negz', 'named'):
         pass
     elif k == 'fn':
         acc.update(e[2]); names(e[3], acc)
@@ -315,7 +341,7 @@ def wellformed(e) -> bool:
     if e is None or not isinstance(e, tuple):
         return True
     k = e[0]
-    if k in ('lit', 'dlit', 'elit', 'var', 'named'):
+    if k in ('lit', 'dlit', 'elit', 'slit', 'nan', 'inf', 'negz', 'var', 'named'):
         return True
     if k == 'for' and e[1] in names(e[2], set()):
         return False
@@ -337,7 +363,7 @@ def kinds(e, acc: set):
         return acc
     k = e[0]
     acc.add(k)
-    if k in ('lit', 'dlit', 'elit', 'var', 'named'):
+    if k in ('lit', 'dlit', 'elit', 'slit', 'nan', 'inf', 'negz', 'var', 'named'):
         return acc
     if k == 'tfn':
         acc.add('fn'); kinds(e[5], acc)
@@ -982,6 +1008,72 @@ class Gen:
             e = ('cat', e, self.lit())
         return e
 
+    STRS = ['a', 'A', 'b', 'B', 'ab', 'Ab', 'aB', 'AB', '', 'a1', 'Z', 'z', 'ba']
+
+    def sortprog(self, d):
+        """fn:sort over strings (code-point order or html-ascii-case-insensitive: collation argument
+        `()` = the parser's default, or an explicit URI) and over numerics with NaN, +-INF, -0 at every
+        position, as items and as keys; the key function is a closure, a partial application, or inline"""
+        r = self.rng
+        fam = r.choice(['str', 'str', 'num', 'num', 'mixed'])
+        n = r.choice([2, 2, 3, 4, 5, 6])
+
+        def sitem():
+            return ('slit', r.choice(self.STRS))
+
+        def nitem():
+            k = r.random()
+            if k < 0.2:
+                return ('nan',)
+            if k < 0.3:
+                return ('inf', r.random() < 0.5)
+            if k < 0.4:
+                return ('negz',)
+            return (r.choice(['lit', 'dlit', 'elit']), r.choice([0, 0, 1, 2, -1, 3]))
+        if fam == 'str':
+            items = [sitem() for _ in range(n)]
+        elif fam == 'num':
+            items = [nitem() for _ in range(n)]
+        else:
+            items = [sitem() if r.random() < 0.5 else nitem() for _ in range(2)]   # type error unless equal kinds
+        r.shuffle(items)
+        x = 0
+        kk = r.random()
+        if kk < 0.45:
+            key = ('var', x)
+        elif kk < 0.6:
+            key = ('cat', ('var', x), self.lit())
+        elif kk < 0.7:
+            key = ('cat', r.choice([self.lit(), ('tt',), ('slit', 'k')]), ('var', x))
+        elif kk < 0.8:
+            # some items get a constant key of the same kind: ties, stability
+            const = sitem() if fam == 'str' else nitem()
+            key = ('ite', ('inst', r.choice(['integer', 'double', 'string', 'decimal']), ('var', x)), const, ('var', x))
+        elif kk < 0.9:
+            key = ('cat', ('var', x), ('var', x))
+        else:
+            key = r.choice([('nan',), ('slit', 'a'), ('emp',)])
+        kf = ('fn', 0, [x], key)
+        col = r.choice(['default', 'default', 'default', 'codepoint', 'asciici'])
+        s0 = seq(*items)
+        w = r.random()
+        if w < 0.5:
+            e = ('sortK', s0, kf, col)
+        elif w < 0.65:
+            e = ('let', 5, kf, ('sortK', s0, ('var', 5), col))
+        elif w < 0.8:
+            # the key function through a partial application
+            e = ('sortK', s0, ('call', ('fn', 0, [6, x], key), [self.lit(), None]), col)
+        elif w < 0.9:
+            e = ('call', ('named', 'reverse'), [('sortK', s0, kf, col)])
+        else:
+            e = ('for', 7, seq(('lit', 1), ('lit', 2)), ('sortK', s0, kf, col))
+        self.tags.add('sortprog:' + fam)
+        self.tags.add('collation-arg:' + col)
+        if r.random() < 0.5:
+            self.tags.add('parser:asciici')
+        return e
+
     def selfrec(self, d):
         """recursion through a function passed to itself"""
         r = self.rng
@@ -1008,11 +1100,15 @@ class Gen:
             e = self.selfrec(d)
         elif k < 0.45:
             e = self.pdag(d)
+        elif k < 0.53:
+            e = self.sortprog(d)
         else:
             sc0 = {'vars': [], 'dot': I}
             e = self.gen(r.choice([IS, IS, I, IS, B, S(A), S(A), S(N)]), sc0, d)
         if not wellformed(e):
             return self.program(quick)
+        if 'parser:asciici' not in self.tags and 'sortK' in kinds(e, set()) and r.random() < 0.3:
+            self.tags.add('parser:asciici')
         return renumber(e), sorted(self.tags)
 
 
@@ -1030,7 +1126,14 @@ def canon_items(v) -> str:
         elif isinstance(x, Decimal):
             out.append(f'D{int(x)}' if x == x.to_integral_value() else f'?Decimal:{x}')
         elif isinstance(x, float):
-            out.append(f'E{int(x)}' if x == x and abs(x) != float('inf') and x == int(x) else f'?float:{x!r}')
+            if x != x:
+                out.append('NaN')
+            elif x in (float('inf'), float('-inf')):
+                out.append('INF' if x > 0 else '-INF')
+            else:   # -0e0 prints as E0: the sign of a computed zero is not modelled (the key of -0 is that of 0)
+                out.append(f'E{int(x)}' if x == int(x) else f'?float:{x!r}')
+        elif isinstance(x, str):
+            out.append('"' + x + '"')
         elif isinstance(x, XPathFunction):
             out.append('F')
         elif isinstance(x, list):
@@ -1041,6 +1144,7 @@ def canon_items(v) -> str:
 
 
 _PARSER = None
+_PARSER_CI = None
 
 
 class _Timeout(BaseException):
@@ -1051,7 +1155,7 @@ def _alarm(signum, frame):
     raise _Timeout()
 
 
-def run_impl(text: str, limit: float = 0.5) -> str:
+def run_impl(text: str, limit: float = 0.5, dc: bool = False) -> str:
     """evaluate with the real code; a program whose evaluation does not finish within `limit`
     seconds (sequence sizes can explode: `$s ! $s` inside a fold) is reported as 'TIMEOUT' and
     skipped by the caller"""
@@ -1067,10 +1171,12 @@ def run_impl(text: str, limit: float = 0.5) -> str:
         # get_results (evaluate path) and once through select_results (iterator path) with fresh
         # contexts: state kept on tokens (placeholder values, argument lists of partial functions,
         # closure slots) must not leak from one evaluation into the next
-        global _PARSER
+        global _PARSER, _PARSER_CI
         if _PARSER is None:
             _PARSER = XPath31Parser()
-        token = _PARSER.parse(text)
+            # non-default constructor option: the default collation of the static context
+            _PARSER_CI = XPath31Parser(default_collation=CI_URI)
+        token = (_PARSER_CI if dc else _PARSER).parse(text)
         r1 = canon_items(token.get_results(XPathContext(None, item=1)))
         r2 = canon_items(list(token.select_results(XPathContext(None, item=1))))
         r3 = canon_items(token.get_results(XPathContext(None, item=1)))
@@ -1172,22 +1278,24 @@ def parse_answer(ans: str):
 
 
 TREES: dict[str, tuple] = {}
+TREE_TAGS: dict[str, list] = {}
 
 
 def compare(run: Run, cfg: str, progs: list, record=True) -> list[Disagreement]:
-    impls = [run_impl(xp(e)) for e, _ in progs]
+    impls = [run_impl(xp(e), dc='parser:asciici' in tags) for e, tags in progs]
     keep = [i for i, r in enumerate(impls) if r != 'TIMEOUT']
     if record and len(keep) != len(progs):
         run.stats.count('skipped:timeout', len(progs) - len(keep))
     progs = [progs[i] for i in keep]
     impls = [impls[i] for i in keep]
-    lines = [f'cfg={cfg} fuel={FUEL} P={proto(e)}' for e, _ in progs]
+    lines = [f'cfg={cfg} fuel={FUEL} P={proto(e, "parser:asciici" in tags)}' for e, tags in progs]
     answers = safe_driver(run, lines)
     out = []
     st = run.stats
     for (e, tags), line, ans, impl in zip(progs, lines, answers, impls):
         text = xp(e)
-        case = {'xpath': text, 'program': proto(e), 'cfg': cfg}
+        case = {'xpath': text, 'program': proto(e, 'parser:asciici' in tags), 'cfg': cfg,
+                'default_collation': CI_URI if 'parser:asciici' in tags else CP_URI}
         if ans is None:
             if record:
                 st.count('skipped:model-timeout')
@@ -1215,6 +1323,7 @@ def compare(run: Run, cfg: str, progs: list, record=True) -> list[Disagreement]:
             st.count('size:%d+' % (min(size(e), 60) // 10 * 10))
         if impl != spec or impl != model:
             TREES[case['program']] = e
+            TREE_TAGS[case['program']] = [t for t in tags if t.startswith('parser:')]
         if impl != spec:
             out.append(Disagreement(case, impl=impl, model=model, spec=spec, what='closure-semantics',
                                     site='_InlineFunction.evaluate/__call__, HOFs', tags=ftags))
@@ -1315,6 +1424,18 @@ CORPUS = [
     ('call', ('tfn', 0, [1], ['item*'], 'integer', V(1)), [('named', 'abs')]),
     ('call', ('tfn', 0, [1], ['item*'], 'double', V(1)), [L(1)]),
     ('forEach', seq(L(1), L(2)), ('tfn', 0, [1], ['boolean'], 'item*', V(1))),
+    # round 3: special doubles as sort keys, NaN first at every position; -0 = 0
+    ('sortK', seq(('nan',), ('elit', 1)), fn([0], V(0))),
+    ('sortK', seq(('elit', 1), ('nan',)), fn([0], V(0))),
+    ('sortK', seq(L(1), ('nan',)), fn([0], V(0))),
+    ('sortK', seq(('nan',), L(1)), fn([0], V(0))),
+    ('sortK', seq(L(2), ('nan',), ('dlit', 1), ('inf', False), ('inf', True), L(0), ('negz',), ('nan',)), fn([0], V(0))),
+    ('sortK', seq(L(1), L(2), L(3)), fn([0], ('ite', ('eq', V(0), L(2)), ('nan',), V(0)))),
+    ('sortK', seq(('elit', 1), ('slit', 'a')), fn([0], V(0))),
+    # round 3: strings, collation argument `()` = default collation of the parser / explicit URI
+    ('sortK', seq(('slit', 'b'), ('slit', 'a'), ('slit', 'B'), ('slit', 'A'), ('slit', 'ab'), ('slit', '')), fn([0], V(0))),
+    ('sortK', seq(('slit', 'b'), ('slit', 'a'), ('slit', 'B'), ('slit', 'A')), fn([0], V(0)), 'asciici'),
+    ('sortK', seq(('slit', 'b'), ('slit', 'a'), ('slit', 'B'), ('slit', 'A')), fn([0], V(0)), 'codepoint'),
     # F16h: predicate result as a one-item sequence
     ('filter', seq(L(1), L(2), L(3)), fn([0], ('let', 1, V(0), ('gt', V(1), L(1))))),
     # arity
@@ -1347,6 +1468,8 @@ def correspond(run: Run, cfg: str) -> None:
     g = Gen(rng, noise=0.0)
     gn = Gen(rng, noise=0.06)
     progs = [(P(c), ['corpus']) for c in CORPUS]
+    # the sort entries of the corpus also under the parser whose default collation is case-insensitive
+    progs += [(P(c), ['corpus', 'parser:asciici']) for c in CORPUS if 'sortK' in kinds(c, set())]
     for k in range(n):
         progs.append((gn if k % 5 == 4 else g).program(run.quick))
     run.stats.rule = ('closed, typed programs of the fragment (depth 2..5; 30% closure histories: function items '
@@ -1426,7 +1549,7 @@ def subterms(e):
     """candidate replacements for shrinking: e replaced by one of its children (type-unsafe candidates are
     filtered by re-running)"""
     k = e[0]
-    if k in ('lit', 'dlit', 'elit', 'var', 'named', 'tt', 'ff', 'emp', 'dot', 'pos', 'last'):
+    if k in ('lit', 'dlit', 'elit', 'slit', 'nan', 'inf', 'negz', 'var', 'named', 'tt', 'ff', 'emp', 'dot', 'pos', 'last'):
         return
     if k == 'inst':
         yield e[2]
@@ -1492,7 +1615,7 @@ def shrink(d: Disagreement) -> Disagreement:
                 continue
             try:
                 c = renumber(cand)
-                ds = compare(sub, cfg, [(c, [])], record=False)
+                ds = compare(sub, cfg, [(c, TREE_TAGS.get(d.case['program'], []))], record=False)
             except Exception:
                 continue
             ds = [x for x in ds if x.kind == d.kind and x.what == d.what and x.tags == d.tags
